@@ -231,6 +231,12 @@ impl SwiftField for Field23E {
             }
 
             let info = &input[5..];
+            if info.is_empty() {
+                return Err(ParseError::InvalidFormat {
+                    message: "Field 23E additional information must not be empty after '/'"
+                        .to_string(),
+                });
+            }
             if info.len() > 35 {
                 return Err(ParseError::InvalidFormat {
                     message: format!(
